@@ -46,6 +46,11 @@ func readTlvStream(
 				break
 			}
 
+			if len > defn.MaxNDNPacketSize {
+				// Cannot be a valid packet (and int(len) may even be negative)
+				return errors.New("received TLV block larger than the maximum packet size")
+			}
+
 			tlvSize := typ.EncodingLength() + len.EncodingLength() + int(len)
 
 			if recvOff-tlvOff >= tlvSize {
